@@ -4,6 +4,7 @@ import (
 	"encoding/json"
 	"fmt"
 	"os"
+	"strings"
 
 	"github.com/ontio/ontology/merkle"
 
@@ -63,6 +64,23 @@ func (d *drv) vc(in probe, m, n uint32, old, new h256, proof []h256, want int, e
 	if emit {
 		c.Case(fmt.Sprintf("CVerCons %d %d %s %s %s %s", m, n, d.r.hrefP(old), d.r.hrefP(new), d.r.hrefs(proof), vres(err)), in)
 	}
+}
+
+// safeIncl / safeCons call the generators and turn a panic into an error value.
+func safeIncl(t *merkle.CompactMerkleTree, m, n uint32) (pr []h256, err error) {
+	p, msg := hx.Recover(func() { pr, err = t.InclusionProof(m, n) })
+	if p {
+		return nil, fmt.Errorf("panic: %s", msg)
+	}
+	return
+}
+
+func safeCons(t *merkle.CompactMerkleTree, m, n uint32) (pr []h256, err error) {
+	p, msg := hx.Recover(func() { pr = t.ConsistencyProof(m, n) })
+	if p {
+		return nil, fmt.Errorf("panic: %s", msg)
+	}
+	return
 }
 
 func without(p []h256, k int) []h256 {
@@ -265,23 +283,26 @@ func (d *drv) proofsCheck(N int, store string) {
 	for n := 1; n <= N; n++ {
 		d.appendLeaf(t, n-1)
 		for m := 0; m < n; m++ {
-			pr, err := t.InclusionProof(uint32(m), uint32(n))
+			pr, err := safeIncl(t, uint32(m), uint32(n))
 			c.Eval()
 			if err != nil || !eqHashes(pr, d.r.path(m, 0, n)) {
-				c.Fail("incl:proof-ne-rfc", "InclusionProof on the tree of exactly n leaves differs from RFC 6962 PATH", probe{Kind: "incl", N: n, M: uint32(m), Size: uint32(n), Store: store}, hexes(pr), nil)
+				c.Fail("incl:proof-ne-rfc", "InclusionProof on the tree of exactly n leaves differs from RFC 6962 PATH", probe{Kind: "incl", N: n, M: uint32(m), Size: uint32(n), Store: store}, fmt.Sprint(hexes(pr), err), nil)
 			}
-			cp := t.ConsistencyProof(uint32(m+1), uint32(n))
+			cp, cerr := safeCons(t, uint32(m+1), uint32(n))
 			c.Eval()
-			if !eqHashes(cp, d.r.proof(m+1, n)) {
+			if cerr != nil || !eqHashes(cp, d.r.proof(m+1, n)) {
 				c.Fail("cons:proof-ne-rfc", "ConsistencyProof on the tree of exactly n leaves differs from RFC 6962 PROOF", probe{Kind: "cons", N: n, M: uint32(m + 1), Size: uint32(n), Store: store}, hexes(cp), nil)
 			}
 		}
 		// unavailable sizes and bad parameters
-		if _, err := t.InclusionProof(uint32(n), uint32(n)); err == nil {
+		if _, err := safeIncl(t, uint32(n), uint32(n)); err == nil {
 			c.Fail("incl:bad-params-accepted", "InclusionProof(m >= n) returned a proof", probe{Kind: "incl", N: n, M: uint32(n), Size: uint32(n)}, nil, nil)
 		}
-		if _, err := t.InclusionProof(0, uint32(n+1)); err == nil {
-			c.Fail("incl:bad-params-accepted", "InclusionProof for a size not yet reached returned a proof", probe{Kind: "incl", N: n, M: 0, Size: uint32(n + 1)}, nil, nil)
+		if pr, err := safeIncl(t, 0, uint32(n+1)); err == nil || strings.HasPrefix(err.Error(), "panic") {
+			c.Fail("incl:bad-params-accepted", "InclusionProof for a size not yet reached returned a proof (or crashed) instead of an error", probe{Kind: "incl", N: n, M: 0, Size: uint32(n + 1), Store: store}, fmt.Sprint(hexes(pr), err), "error: not available yet")
+		}
+		if pr, _ := safeCons(t, 1, uint32(n+1)); pr != nil {
+			c.Fail("cons:bad-params-accepted", "ConsistencyProof for a size not yet reached returned a proof", probe{Kind: "cons", N: n, M: 1, Size: uint32(n + 1), Store: store}, hexes(pr), "nil")
 		}
 	}
 	for n := 1; n <= N; n++ {
@@ -446,7 +467,7 @@ func (d *drv) reloadOne(n, more, extra, trunc int, emit bool) {
 	check := func(t *merkle.CompactMerkleTree, size int, when string) {
 		for k := 1; k <= size; k++ {
 			for m := 0; m < k; m++ {
-				pr, err := t.InclusionProof(uint32(m), uint32(k))
+				pr, err := safeIncl(t, uint32(m), uint32(k))
 				c.Eval()
 				if err != nil || !eqHashes(pr, r.path(m, 0, k)) {
 					q := in
@@ -455,9 +476,9 @@ func (d *drv) reloadOne(n, more, extra, trunc int, emit bool) {
 				} else if err := d.ver.VerifyLeafHashInclusion(r.leaves[m], uint32(m), pr, r.mth(0, k), uint32(k)); err != nil {
 					c.Fail("reload:differs", "inclusion proof from the reloaded tree ("+when+") does not verify", in, err.Error(), nil)
 				}
-				cp := t.ConsistencyProof(uint32(m+1), uint32(k))
+				cp, cerr := safeCons(t, uint32(m+1), uint32(k))
 				c.Eval()
-				if !eqHashes(cp, r.proof(m+1, k)) {
+				if cerr != nil || !eqHashes(cp, r.proof(m+1, k)) {
 					q := in
 					q.M, q.Size = uint32(m+1), uint32(k)
 					c.Fail("reload:differs", "consistency proof from the reloaded tree ("+when+") differs", q, hexes(cp), hexes(r.proof(m+1, k)))
@@ -491,7 +512,7 @@ func (d *drv) reloadOne(n, more, extra, trunc int, emit bool) {
 		for j := 0; j < 6 && size > 0; j++ {
 			k := 1 + c.Intn(size)
 			m := c.Intn(k)
-			pr, err := t2.InclusionProof(uint32(m), uint32(k))
+			pr, err := safeIncl(t2, uint32(m), uint32(k))
 			g := "GOk " + r.hrefs(pr)
 			if err != nil {
 				g = "GErr " + gerr(err)
